@@ -138,6 +138,16 @@ def build_pkg(pkg):
     return out, time.time() - t0
 
 
+def shared_cwd():
+    """Working directory of every worker: the same path in every process, so that nothing derived from it
+    (restic stores the absolute backup path in snapshots) differs between a run and its replay. It only
+    holds an empty directory `src` (the backup target, whose content is served by the simulated FS)."""
+    base = "/dev/shm" if os.path.isdir("/dev/shm") and os.access("/dev/shm", os.W_OK) else BUILD
+    d = os.path.join(base, "verif-cwd")
+    os.makedirs(os.path.join(d, "src"), exist_ok=True)
+    return d
+
+
 def scratch_dir(tag):
     base = "/dev/shm" if os.path.isdir("/dev/shm") and os.access("/dev/shm", os.W_OK) else BUILD
     d = os.path.join(base, "verif-%s-%d" % (tag, os.getpid()))
@@ -189,7 +199,7 @@ def run_workers(pid, spec, tier, seed, binp, scratch, budget, extra_args=None, n
         env = goenv({"GOMAXPROCS": "1", "TMPDIR": wdir, "HOME": wdir, "XDG_CACHE_HOME": os.path.join(wdir, "cache"),
                      "RESTIC_CACHE_DIR": os.path.join(wdir, "rcache")})
         logf = open(os.path.join(outdir, "%s.%d.log" % (pid, i)), "w")
-        p = subprocess.Popen(cmd, cwd=wdir, env=env, stdout=logf, stderr=subprocess.STDOUT)
+        p = subprocess.Popen(cmd, cwd=shared_cwd(), env=env, stdout=logf, stderr=subprocess.STDOUT)
         procs.append((p, outp, logf))
     results = []
     trouble = []
@@ -223,7 +233,7 @@ def replay_fresh(spec, binp, path, scratch, n=3):
         if spec.get("mode"):
             cmd += ["-verif.mode", spec["mode"]]
         env = goenv({"GOMAXPROCS": "1", "TMPDIR": wdir, "HOME": wdir, "RESTIC_CACHE_DIR": os.path.join(wdir, "rcache")})
-        r = run(cmd, cwd=wdir, env=env, capture_output=True, text=True)
+        r = run(cmd, cwd=shared_cwd(), env=env, capture_output=True, text=True)
         m = re.search(r"REPLAY property=\S+ same_violation=(\w+) hash_match=(\w+)", r.stdout)
         if m and m.group(1) == "true":
             ok += 1
@@ -368,7 +378,7 @@ def replay(path):
         if "-v" in sys.argv:
             cmd += ["-verif.dump"]
         env = goenv({"GOMAXPROCS": "1", "TMPDIR": scratch, "HOME": scratch, "RESTIC_CACHE_DIR": os.path.join(scratch, "rcache")})
-        r = run(cmd, cwd=scratch, env=env, capture_output=True, text=True)
+        r = run(cmd, cwd=shared_cwd(), env=env, capture_output=True, text=True)
         sys.stdout.write(r.stdout)
         m = re.search(r"REPLAY property=\S+ same_violation=(\w+) hash_match=(\w+)", r.stdout)
         if not m:
@@ -401,7 +411,7 @@ def selftest(pids):
             if spec.get("mode"):
                 cmd += ["-verif.mode", spec["mode"]]
             env = goenv({"GOMAXPROCS": "1", "TMPDIR": wdir, "HOME": wdir, "RESTIC_CACHE_DIR": os.path.join(wdir, "rcache")})
-            procs.append(subprocess.Popen(cmd, cwd=wdir, env=env, stdout=subprocess.PIPE, stderr=subprocess.STDOUT, text=True))
+            procs.append(subprocess.Popen(cmd, cwd=shared_cwd(), env=env, stdout=subprocess.PIPE, stderr=subprocess.STDOUT, text=True))
         outs = [p.communicate()[0] for p in procs]
         maps = []
         for o in outs:
